@@ -154,6 +154,20 @@ def run_shard(ctx):
         if pool:
             r = sorted(set(rng.sample(pool, rng.randint(1, min(2, len(pool))))))
             rv = [Variable(x) for x in r]
+            # the ranges in the forms the signatures take: a list / tuple / set of variables or of names, one variable,
+            # one bare name (also a name of several characters)
+            fk = (i + sum(map(ord, "".join(r)))) % 8
+            if len(r) == 1 and fk in (0, 1):
+                rv = r[0] if fk == 0 else Variable(r[0])
+                kernel.count("C13:ranges-as-bare-name" if fk == 0 else "C13:ranges-as-one-variable")
+            elif fk == 2:
+                rv = list(r)
+            elif fk == 3:
+                rv = tuple(rv)
+            elif fk == 4:
+                rv = set(rv)
+            elif fk == 5:
+                rv = tuple(r)
             differs = lambda res, e=e: res != e  # noqa: E731
             _call(ctx, "marginalize", lambda: e.marginalize(rv), f"{src}|{r}", differs, {"e": e, "ranges": r})
             if not _const(e):
@@ -194,6 +208,10 @@ def run_shard(ctx):
     for i in range(n):
         names = rng.sample(ge.NAMES, rng.randint(3, 6))
         ast = ge.rand_prob(rng, names, dict(OPTS, multiworld=(i % 5 == 0)))
+        if i % 9 == 4 and ast[2]:
+            # a condition that repeats an outcome: P(A, B | A) = P(B | A) - unusual, but a probability like any other
+            ast[3] = [list(x) if isinstance(x, list) else x for x in ast[3]] + [rng.choice(ast[2])]
+            kernel.count("C13:condition-repeats-an-outcome")
         p = ge.build_raw(ast)
         src = ge.to_src(p)
         mode = i % 4
